@@ -23,8 +23,17 @@ from checklib import Ctx, Finding
 from pynenc.orchestrator.atomic_service import ActiveRunnerInfo, can_run_atomic_service
 
 
+TIES = "distinct"      # creation times of the runner list: distinct | all-equal | first-two-equal (one heartbeat batch)
+
+
 def runners(n: int) -> list[ActiveRunnerInfo]:
-    return [ActiveRunnerInfo(runner_id=f"r{p}", creation_time=datetime.fromtimestamp(1000 + p, UTC),
+    def created(p: int) -> int:
+        if TIES == "all-equal":
+            return 1000
+        if TIES == "first-two-equal":
+            return 1000 + max(0, p - 1)
+        return 1000 + p
+    return [ActiveRunnerInfo(runner_id=f"r{p}", creation_time=datetime.fromtimestamp(created(p), UTC),
                              last_heartbeat=datetime.fromtimestamp(2000, UTC), allow_to_run_atomic_service=True)
             for p in range(n)]
 
@@ -90,6 +99,16 @@ def run(ctx: Ctx) -> None:
                         k = off if off < 100 else int(min(off, 2e9 / cyc))
                         traces.append(trace_for(n, S, m, tau, k, 3 if not ctx.quick else 2))
                         meta.append({"n": n, "S": S, "m": m, "tau": tau, "offset_cycles": k})
+    # runners registered in one heartbeat batch share their creation time: the position is the place in the list
+    # the backend returned (ordered by creation time), whatever the ties
+    global TIES
+    for TIES in ("all-equal", "first-two-equal"):
+        for n in range(2, 6):
+            for S in (2, 4, 8):
+                for m in (0, 1, S):
+                    traces.append(trace_for(n, S, m, 1.0, 0, 2))
+                    meta.append({"n": n, "S": S, "m": m, "tau": 1.0, "offset_cycles": 0, "creation_times": TIES})
+    TIES = "distinct"
     # exact-arithmetic traces (tau = 1, offset 0) are required to equal the model tick by tick
     strict, r1 = tlc.validate_traces("AtomicServiceTrace", "AtomicServiceTrace_strict.cfg", traces, timeout=3000)
     obs, r2 = tlc.validate_traces("AtomicServiceTrace", "AtomicServiceTrace_obs.cfg", traces, timeout=3000)
